@@ -43,7 +43,7 @@ def run(ctx):
     if ctx.quick:
         rjobs = [(ctx.rng.randrange(10**9), ctx.rng.randint(5, 8), ctx.rng.choice([12, 25, 40]), k < 16) for k in range(140)]
     else:
-        rjobs = [(ctx.rng.randrange(10**9), ctx.rng.randint(5, 10), ctx.rng.choice([25, 40, 80, 150]), k < 40) for k in range(260)]
+        rjobs = [(ctx.rng.randrange(10**9), ctx.rng.randint(5, 10), ctx.rng.choice([25, 40, 80, 150]), k < 60) for k in range(700)]
     tjobs = trace_plan(ctx)
     with ProcessPoolExecutor(max_workers=h.WORKERS) as ex:
         rres = list(ex.map(edits.roundtrip_job, rjobs, chunksize=2))
